@@ -204,6 +204,14 @@ def pump_cases(quick):
             for c in PUMP_CLOSERS[(len(o) + len(u)) % 2::2] if quick \
                     else PUMP_CLOSERS:
                 yield o + u * (PUMP_N // 2) + c
+    # three-part shapes: a long run before the first separator, many
+    # separators, a long tail - where a pattern with two or three independent
+    # choices per match attempt multiplies them (the link pattern once took
+    # (length)**4 steps on the first of these)
+    for o in ("[[", "[[a|", "{{x|[[", "[http://x.org ", "{{", "{{{", "<span ",
+              "{|\n|", "{| "):
+        for sep in ("|y", "||", " k=v", "]x", "}x", "=", ":"):
+            yield o + "x" * 150 + sep * 60 + "z" * 200
     pair_units = PUMP_UNITS[:24] if quick else PUMP_UNITS
     for o in PUMP_OPENERS[: 8 if quick else len(PUMP_OPENERS)]:
         for a, b in itertools.permutations(pair_units, 2):
